@@ -82,7 +82,7 @@ fn check_validate_merge<S: Subject>(plan: &Plan, ctx: &Ctx, stats: &mut Stats, m
                 if !misuse {
                     if let Err(e) = &ab {
                         let known = multi_member_add(&sim.metas, ka | kb);
-                        if known && !stats.strict && e.contains("DoubleSpentDot") {
+                        if known && !stats.strict && crate::engine::class_enabled("ORSWOT-V2") && e.contains("DoubleSpentDot") {
                             stats.exempt("ORSWOT-V2");
                         } else {
                             let f = Fail::new(format!("validate_merge({na}, {nb}) = {e} although every actor is confined to one replica (correct use)"));
